@@ -879,7 +879,33 @@ class T:
 
     def _inplace(self, r):
         self.f, self.dtype, self.nan = r.f, r.dtype, r.nan
+        self._write_back()
         return self
+
+    def _write_back(self):
+        """this tensor is a view (basic index / slice of a time-axis tensor) that was just mutated in place: the base
+        tensor - e.g. the ring-buffer storage behind RecordTensor.peek() - sees the new values"""
+        link = getattr(self, "view_of", None)
+        if link is None:
+            return
+        base, kind, a = link
+        old_f, old_nan = base.f, base.nan
+        if kind == "index":
+            i, newv, newn = a, self.f, self.nan
+            if self.tlen is not None:
+                return
+            base.f = lambda t, i=i, newv=newv, old_f=old_f: z3.If(t == i, coerce(newv, base.dtype), old_f(t))
+            if newn is not None or old_nan is not None:
+                on = old_nan if callable(old_nan) else (lambda t, v=old_nan: v if v is not None else z3.BoolVal(False))
+                nn = newn if newn is not None else z3.BoolVal(False)
+                base.nan = lambda t, i=i, nn=nn, on=on: z3.If(t == i, nn, on(t))
+        else:
+            lo, n = a
+            nf = self.f
+            if self.tlen is None:
+                return
+            base.f = lambda t, lo=lo, n=n, nf=nf, old_f=old_f: z3.If(z3.And(t >= lo, t < lo + n), coerce(nf(t - lo), base.dtype), old_f(t))
+        base._write_back()
 
     def _inplace_full(self, r):
         """torch in-place arithmetic (x *= y, x.mul_(y), ...): the OBJECT is mutated, every alias sees the new value;
@@ -893,6 +919,7 @@ class T:
         self.f, self.nan = r.f, r.nan
         if r.tlen is not None:
             self.tlen, self.taxis = r.tlen, r.taxis
+        self._write_back()
         return self
 
     def mul_(self, o):
@@ -1118,7 +1145,9 @@ class T:
             hi = _norm_bound(k.stop, L, None)
             n = z3.If(hi - lo > 0, hi - lo, z3.IntVal(0))
             n = z3.simplify(n)
-            return T(lambda t: f(lo + t), self.dtype, wrap(n), "first", self.eshape, (lambda t: nan(lo + t)) if callable(nan) else nan)
+            r = T(lambda t: f(lo + t), self.dtype, wrap(n), "first", self.eshape, (lambda t: nan(lo + t)) if callable(nan) else nan)
+            r.view_of = (self, "slice", (lo, n))
+            return r
         if isinstance(k, T):
             if k.dtype == "bool":
                 raise Unsupported("boolean mask indexing")
@@ -1138,7 +1167,10 @@ class T:
                 raise SymRaise("IndexError")
         if not ex.implied(i >= 0):
             i = z3.If(i >= 0, i, i + L)
-        return T(f(i), self.dtype, None, None, self.eshape, nan(i) if callable(nan) else nan)
+        r = T(f(i), self.dtype, None, None, self.eshape, nan(i) if callable(nan) else nan)
+        # basic indexing returns a VIEW: an in-place operation on the result writes through to this tensor
+        r.view_of = (self, "index", i)
+        return r
 
     def __setitem__(self, key, value):
         if isinstance(key, T) and key.dtype == "bool" and key.tlen is None and self.tlen is None:
